@@ -223,6 +223,15 @@ def check(res):
                 until = own
                 j = k + 1
                 while until is not None and j + 1 < len(tr) and tr[j + 1][0].t < until - 1e-9:
+                    retrip = tr[j + 1][0]
+                    nxt = tr[j + 3][0] if j + 3 < len(tr) else None
+                    st_then = next((x.d["new"] for x in reversed(evs) if x.kind == "state" and x.seq < retrip.seq), "running")
+                    if st_then in ("pausing", "paused") and not any(r.seq > retrip.seq and (nxt is None or r.seq < nxt.seq) for r in reqs.get(sig, [])):
+                        # the signal went bad again while the engine was pausing / paused (the user's pause inside the
+                        # suspension): the suspender asks for nothing then, no further suspension comes into effect and
+                        # this one ends with its own release (what a trip during a pause should do is not C11's)
+                        res.notes["retrip_while_not_running"] = res.notes.get("retrip_while_not_running", 0) + 1
+                        break
                     if j + 2 < len(tr):
                         until = max(until, tr[j + 2][0].t + sleeps[sig])
                         j += 2
